@@ -19,7 +19,7 @@ PROPS["C13"] = dict(
                 "exception or not / exception type / outputs untouched on throw": "exact",
                 "constructor accept / reject": "exact (binary64 predicates evaluated in Lean's softfloat)",
                 "Node::Check / Load accept-reject, INVALID markers, decoder accept-reject": "exact",
-                "hang": "0.5 s CPU time per swept call, 3 s per constructor (+ first use), 30–120 s wall for file / search ops"},
+                "hang": "1 s CPU time per swept call, 3 s per constructor (+ first use), 30–120 s wall for file / search ops"},
     level_text=("Theorems: the decision procedures the driver runs are sound for the contract (a call accepted by checkNaN raised no exception — or the "
                 "documented GeographicErr with nothing written — and is NaN on exactly the outputs the dependence table marks as dependent and valid on "
                 "those marked independent; an accepted throwing call left every output untouched and threw only the library's exception or bad_alloc); "
